@@ -463,3 +463,44 @@ def check(run, prog):
     rule_isolation(run, prog)
     from .c08_container import rule_container_keeps_all
     rule_container_keeps_all(run, prog, "R-13.5")
+    rule_state_option_free(run, prog)
+
+
+def rule_state_option_free(run, prog, rid="R-13.6"):
+    run.rule(rid, "the header recogniser starts in the same state whatever the options: Context.__init__, interpreted with no -R words, "
+             "with `CheckDefine`, with an unknown word and with every string constant its own code (and the functions of context.py) "
+             "mentions, sets the header state attributes (those check_header.py stores) to the same values", floor=1)
+    from .c04 import FormatterBench
+    from ..minieval import Unsupported
+    from ..xeval import Raised
+    ci = prog.fn("context.py::Context.__init__")
+    run.require(ci is not None, "anchor vanished: Context.__init__")
+    state = sorted(header_state_attrs(prog))
+    words = {"x", "CheckDefine", "CheckHeader"}
+    for fn in prog.fns:
+        if fn.mod.rel == "context.py":
+            for c in walk_fn(fn.node):
+                if isinstance(c, ast.Constant) and isinstance(c.value, str) and c.value.isidentifier() and len(c.value) > 3:
+                    words.add(c.value)
+    bad, n = None, 0
+    try:
+        ref = None
+        for av in [None, []] + [[w] for w in sorted(words)]:
+            n += 1
+            b = FormatterBench(prog)
+            f = b.ev.construct("File", ["t.c", "int a;\n"], {})
+            for debug in (0, 2):
+                try:
+                    ctx = b.ev.construct("Context", [f, [], debug] + ([av] if av is not None else []), {})
+                except Raised:
+                    continue
+                got = tuple(repr(ctx.__dict__.get(a)) for a in state)
+                if ref is None:
+                    ref = got
+                elif got != ref and bad is None:
+                    bad = (av, debug, dict(zip(state, got)), dict(zip(state, ref)))
+    except Unsupported as e:
+        raise Undecided(f"Context.__init__ is outside the evaluable subset: {e}")
+    run.ob(rid, f"{ci.key}::header-state-option-free", bad is None,
+           (f"Context(..., debug={bad[1]}, added_value={bad[0]!r}) starts the header recogniser in the state {bad[2]}, without options it "
+            f"is {bad[3]}: an option decides whether INVALID_HEADER can be reported") if bad else "", ci.node, evaluations=n)
